@@ -10,6 +10,22 @@ TRUST = ("TLC 1.8 and the TLA+ semantics; harness/absmap.py (gamma builds real o
          "alpha reads public props/paths/errors); the bounded universes stated in the evidence file")
 
 CHECKS = {
+ "C13": dict(
+    text="TLC explores spec/MC_Comb.tla: a | b, schema.any(a | b, c), d1 + d2, make_required(d, keys), schema.alias, "
+         "d[key] and iteration over operand universes (dicts with required/optional/absent keys and the relaxed marker, "
+         "scalar/list/dict/any alternatives) and checks that Conforms of the result equals the meaning of the parts on "
+         "probe values generated from every operand and the result (plus one-step edits). Every combination is replayed "
+         "with the real operators; the real verdicts of operands and result on the probes, fake() of the result and the "
+         "exposed members are validated by spec/Trace_Comb.tla.",
+    design="7 C13", technique="TLA+ combinator models vs declarative meaning, TLC; combinations replayed on the real "
+                              "operators; events trace-validated by TLC"),
+ "C14": dict(
+    text="TLC explores spec/MC_Native.tla over the plain-value universe (nesting <=3) and every injection of one "
+         "non-plain member, checking on the from_native model that the schema accepts the value, generates exactly it, "
+         "rejects every one-step edit that is a different value, and that other kinds are refused with ValueError; each "
+         "value is replayed on the real from_native/validate/fake and validated by spec/Trace_Native.tla.",
+    design="7 C14", technique="TLA+ from_native model + TLC; values replayed on the real code; events trace-validated "
+                              "by TLC"),
  "C04": dict(
     text="TLC explores the substitution machine spec/MC_Sub.tla: schemas of the container universe (level 1 + focus "
          "set in quick, all in thorough) and DSL-reachable scalars, each substituted with its generated seed values and "
